@@ -15,7 +15,7 @@ SPEC = dict(
     component="tracekey",
     props_module="Refinery.Props.C11",
     gen_module="Refinery.Gen.Tracekey",
-    quick=dict(cases=1600, len=130, shards=4),
+    quick=dict(cases=1200, len=130, shards=4),
     thorough=dict(cases=48000, len=130, shards=16),
     nontrivial=nontrivial,
     rule="cases = one sampler configuration (0-3 key fields, 0-2 root.-prefixed fields, UseTraceLength on/off) and a "
